@@ -33,13 +33,18 @@ func TestReplayFull(t *testing.T) {
 		t.Fatal(err)
 	}
 	c := &f.Case
+	var trs []runner.Trace
 	for _, e := range []string{"interpreter", "compiler"} {
 		tr := runner.Run(wz.Config(e), c.Module, c.Script, runner.Options{FuelPerCall: c.Fuel, Lib: c.Lib})
+		trs = append(trs, tr)
 		t.Logf("%s inst=%v", e, tr.Inst)
 		for i, s := range tr.Steps {
 			t.Logf("  step %d: %s %s %v", i, s.Kind, s.Detail, s.Results)
 		}
-		t.Logf("  hostlog(%d)=%v", len(tr.HostLog), tr.HostLog)
+		t.Logf("  hostlog: %d entries", len(tr.HostLog))
 		t.Logf("  pages=%d", tr.MemPages)
+	}
+	if d := runner.Diff(&trs[0], &trs[1], "interpreter", "compiler"); d != "" {
+		t.Errorf("engines disagree: %s", d)
 	}
 }
